@@ -760,6 +760,9 @@ def f7_infinite_corrections(ctx) -> None:
                     ctx.violation("F7", st, f"the child pumps now: shifts[{ci}] must become None; found `{norm(st)}`")
         if not done:
             ctx.violation("F7", lp, f"the loop over _rules_using_class[{cc}] no longer sets the shift at the registered position to None")
+        for sk in [n_ for n_ in walk_local(lp) if isinstance(n_, (ast.Continue, ast.Break))]:
+            ctx.violation("F7", sk, f"a pair (rule, position) of _rules_using_class[{cc}] can be skipped in the correction loop: a rule that has {cc} as a child twice keeps a "
+                          "finite shift at the second position, never fires again, and its parent stalls at a finite value")
         _queue_after_test(ctx, "F7", f, lp, rows, r, "a child became infinite")
         if not C.dominates(f, C.stmt_of(mark), lp):
             ctx.violation("F7", lp, "the shifts are corrected before the class is marked infinite")
